@@ -208,6 +208,79 @@ def serveAt (P : Params) (secs : List Section) (i : Nat) (hits : String → Bool
   | none => none
   | some s => some (serveWith P s.username (usersFor secs i) hits header)
 
+/-! ### several requests on one connection (keep-alive, pipelining) -/
+
+/-- Nothing on the decision path — `auth_handler.handle_request`, `handle_unauthorized`, `match`,
+    `encrypted_dictionary_authorizer.authorize` — writes to an object that outlives the request (the
+    channel, the handler/authorizer objects, module globals), reads anything through
+    `request.channel` / `.server`, or reaches state dynamically (`getattr`, `__dict__`, `globals()` …).
+    The one channel access is `request.channel.set_terminator(None)` in the refusal path, modelled
+    below as `deaf`.  All lists are regenerated from the source on every run. -/
+def perRequestDecision : Bool :=
+  hr_persistent_writes.isEmpty && hr_channel_refs.isEmpty && hr_dynamic.isEmpty &&
+  hu_persistent_writes.isEmpty && hu_dynamic.isEmpty && hu_channel_refs.all (· == "request.channel.set_terminator") &&
+  mt_persistent_writes.isEmpty && mt_channel_refs.isEmpty && mt_dynamic.isEmpty &&
+  az_persistent_writes.isEmpty && az_channel_refs.isEmpty && az_dynamic.isEmpty &&
+  auth_subclass_defines.all (· == "__init__") && auth_base_special_methods.isEmpty
+
+/-- what one connection (channel + the server's handler objects) carries from request to request -/
+structure Conn where
+  /-- credentials an earlier request on this connection was authorised with — consulted only if the
+      source does carry state across requests (`perRequestDecision = false`) -/
+  remembered : Option (Bytes × Bytes) := none
+  /-- `handle_unauthorized` set the channel's terminator to `None`: whatever arrives afterwards is
+      collected and never dispatched -/
+  deaf : Bool := false
+deriving DecidableEq, Repr
+
+/-- `handle_request` of a wrapper on a connection.  If the regenerated facts say that the decision
+    path keeps state across requests, the model assumes the worst such state: a success is
+    remembered and replaces the check (the `else` branch; dead on a tree where the facts hold). -/
+def handleRequestOn (P : Params) (dict : List (Bytes × Bytes)) (c : Conn) (header : List Bytes) : Resp × Conn :=
+  if perRequestDecision then (handleRequest P dict header, c)
+  else match c.remembered with
+    | some (u, p) => (.inner u p, c)
+    | none =>
+      match handleRequest P dict header with
+      | .inner u p => (.inner u p, { c with remembered := some (u, p) })
+      | r => (r, c)
+
+/-- the answer of the dispatch loop when the wrapper of handler `name` answered `r` -/
+def answerOf (name : String) : Resp → Answer
+  | .inner u p => ⟨none, false, some (name, some (u, p))⟩
+  | .malformed => ⟨some code_malformed, false, none⟩
+  | .unauthorized => ⟨some code_unauthorized, true, none⟩
+  | .raised => ⟨some code_exception, false, none⟩
+
+/-- the channel after the wrapper answered `r`: the refusal path stops it reading -/
+def afterResp (r : Resp) (c : Conn) : Conn :=
+  if r = .unauthorized then { c with deaf := unauthorized_stops_reading } else c
+
+/-- one request on a connection through the dispatch loop; `none` = the channel does not dispatch it
+    (no response, no handler) -/
+def serveOn (P : Params) (username password : Option Bytes) (c : Conn) (hits : String → Bool)
+    (header : List Bytes) : Option Answer × Conn :=
+  if c.deaf then (none, c) else
+  match dispatch_order.find? hits with
+  | none => (some ⟨some code_no_handler, false, none⟩, c)
+  | some name =>
+    if isWrapped username name then
+      let rc := handleRequestOn P [(username.getD [], password.getD [])] c header
+      (some (answerOf name rc.1), afterResp rc.1 rc.2)
+    else (some ⟨none, false, some (name, none)⟩, c)
+
+/-- a request as the dispatch loop sees it -/
+structure Req where
+  hits : String → Bool
+  header : List Bytes
+
+/-- the requests of one connection, in order -/
+def serveConn (P : Params) (username password : Option Bytes) : Conn → List Req → List (Option Answer)
+  | _, [] => []
+  | c, r :: rest =>
+    (serveOn P username password c r.hits r.header).1 ::
+      serveConn P username password (serveOn P username password c r.hits r.header).2 rest
+
 /-! ### line protocol -/
 
 def optBytes (s : String) : Option (Option Bytes) :=
@@ -346,6 +419,46 @@ def runCase (cfg : List String) (ops : List String) : List String :=
           else "bad-op"
       | _, _, _ => "bad-op"
     | _, _, _ => "bad-op"
+  | _, _ => ops.map fun _ => "bad-config"
+
+/-- `case authconn user=<s…|N> pass=<s…|N>`: the ops are the requests of ONE connection, in order.
+    ops: `handle h=… t=…`   the same wrapper object's `handle_request`, requests sharing one channel object
+         `serve m=… h=… t=…` through the channel's dispatch loop (`noanswer` = not dispatched, nothing sent)
+         `new`               a fresh connection -/
+def runConn (cfg : List String) (ops : List String) : List String :=
+  match (kvGet cfg "user").bind optBytes, (kvGet cfg "pass").bind optBytes with
+  | some user, some pass =>
+    let step (acc : List String × Conn) (l : String) : List String × Conn :=
+      let c := acc.2
+      let ws := words l
+      let hdr : Option (List Bytes) := match kvGet ws "h" with
+        | some "-" => some []
+        | some h => allSome ((splitNE h ",").map reqBytes)
+        | none => none
+      let tbl : Option Tables := match kvGet ws "t" with
+        | some "-" => some ⟨[], [], []⟩
+        | some t => tablesOf (splitNE t ";")
+        | none => none
+      match ws.head?, hdr, tbl with
+      | some "new", _, _ => (acc.1 ++ ["new"], {})
+      | some "handle", some hdr, some t =>
+        if tablesCover t hdr true (pass.getD []) then
+          let rc := handleRequestOn (paramsOf t) [(user.getD [], pass.getD [])] c hdr
+          (acc.1 ++ [showResp rc.1], rc.2)
+        else (acc.1 ++ ["bad-op"], c)
+      | some "serve", some hdr, some t =>
+        match kvGet ws "m" with
+        | none => (acc.1 ++ ["bad-op"], c)
+        | some m =>
+          let ms := if m = "-" then [] else splitNE m ","
+          let hits := fun n => ms.contains n
+          let hit := match dispatch_order.find? hits with | some n => isWrapped user n | none => false
+          if tablesCover t hdr hit (pass.getD []) then
+            let ac := serveOn (paramsOf t) user pass c hits hdr
+            (acc.1 ++ [match ac.1 with | some a => showAnswer a | none => "noanswer"], ac.2)
+          else (acc.1 ++ ["bad-op"], c)
+      | _, _, _ => (acc.1 ++ ["bad-op"], c)
+    (ops.foldl step ([], {})).1
   | _, _ => ops.map fun _ => "bad-config"
 
 end Sv.Auth
